@@ -8,4 +8,4 @@ export JAVA_TOOL_OPTIONS="${JAVA_TOOL_OPTIONS:--Xss512m -Xmx${TLC_XMX:-3g} -XX:+
 CP=/opt/veriftools/tla/tla2tools.jar:/opt/veriftools/tla/CommunityModules-deps.jar
 exec timeout ${TLC_TIMEOUT:-900} java -cp "$CP" \
   -DTLA-Library=$V/spec:$V/spec/alg:$V/spec/trace:$V/spec/mc:$V/spec/gen \
-  tlc2.TLC -metadir "$meta" -config "$cfg" "$@" "$mod"
+  tlc2.TLC -noGenerateSpecTE -metadir "$meta" -config "$cfg" "$@" "$mod"
